@@ -182,7 +182,13 @@ Inductive ekind :=
 | E1_rparen | E1_const_overflow | E1_arith_expected | E1_arith_overflow | E1_lsq_after_star
 | E1_bitnum | E1_bitmask_conv | E1_q_after_mask | E1_field_type | E1_return_type | E1_q_in_function
 | E1_eq_after_q | E1_semicolon | E1_round_not_allowed | E1_rparen_or_type | E1_comma_gt_type
-| E1_gt_or_type | E1_name.
+| E1_gt_or_type | E1_name
+(* messages of the TL2 parser (tlparser_tl2_code.go), used by Lex/LexParse2Model.v *)
+| E2_type_name | E2_func_or_type | E2_semicolon | E2_uint_conv | E2_magic_zero | E2_func_magic
+| E2_cant_parse_decl | E2_targ_decl | E2_targs_close | E2_wrong_brackets | E2_alias_ref
+| E2_first_variant_fail | E2_first_variant_expected | E2_variant_after_bar | E2_at_least_1
+| E2_one_constructor | E2_colon_after_constructor | E2_ignored_optional | E2_no_colon | E2_field_type
+| E2_type_arg | E2_type_args_close | E2_sq_close | E2_array_type | E2_targ_unexpected | E2_type_category.
 
 (** parseErrToken(err, tok, outer): Begin = tok.pos, End = tok.pos advanced by len(tok.val) *)
 Record perr := mkErr { e_kind : ekind; e_tok : token; e_outer : pos }.
